@@ -5,7 +5,9 @@ if ! git -C /repo diff --quiet; then echo "/repo has uncommitted changes: refusi
 tier=${1:-thorough}
 rc=0
 for p in $(python3 -c "import json; print(' '.join(c['property_id'] for c in json.load(open('MANIFEST.json'))['checks']))"); do
-  ./check $p --tier $tier | tail -1 || rc=1
+  out=$(./check $p --tier $tier); st=$?
+  echo "$out" | tail -1
+  [ $st -eq 0 ] || { echo "regen: check $p exited $st"; rc=1; }
 done
 python3-vt - <<'PY'
 import json, jsonschema, glob
